@@ -26,8 +26,6 @@ import (
 	"github.com/risor-io/risor/vm"
 )
 
-const c04hostFinding = "C04-call-panic-leaks-slot"
-
 const c04hostLib = "func g(a) { return a + 1 }\n" +
 	"func h(a) { return [a, a, error(\"x\")] }\n" +
 	"func f(a) { return [a, boom()] }\n" +
@@ -118,10 +116,9 @@ func c04hostPool(r *RNG, cfg *risor.Config) []*c04hostCode {
 	add("func h(a) { return [a, a, error(\"x\")] }\n[7, h(1)]", "e1", false) // the callee's operands are dropped by callFunction
 	k = r.Intn(5)
 	add(c04hostItems(k, "boom()"), "p"+strconv.Itoa(k), false)
-	// a panic that unwinds a callee with an operand pending: callFunction's deferred resumeFrame keeps
-	// the callee's topmost operand as if it were the frame's result (the mechanism of the known finding);
-	// the reset of the next RunCode removes it
-	add("func f(a) { return [a, boom()] }\n[7, 8, f(1)]", "p3", false)
+	// a panic that unwinds a callee with an operand pending: callFunction's deferred function drops the
+	// callee's operands (before the repair of C04-call-panic-leaks-slot one of them stayed: p3)
+	add("func f(a) { return [a, boom()] }\n[7, 8, f(1)]", "p2", false)
 	add("func z() { return boom() }\n[7, z()]", "p1", false)
 	add(c04hostLib+"42", "ok", true)
 	add(c04hostLib+"[1, 2, error(\"e\")]", "e2", true)
@@ -350,7 +347,7 @@ func (s *c04hostSession) sources() string {
 }
 
 // judge compares the real registers after every invocation with the machine and the Spec.
-// It returns false when a violation outside the known finding was reported.
+// It returns false when a violation was reported.
 func (s *c04hostSession) judge(kind string) bool {
 	e := s.e
 	if len(s.toks) == 0 {
@@ -383,8 +380,7 @@ func (s *c04hostSession) judge(kind string) bool {
 	}
 	e.R.Case(kind+" "+hist, nontrivial)
 	okAll := true
-	leaked := false // a Call under the finding's guard happened since the last Run / RunCode
-	mism, specKnown, specUnknown := false, false, false
+	mism, specReported := false, false
 	for i, t := range s.toks {
 		kindTok := strings.SplitN(t, ":", 2)[0]
 		want := t[strings.LastIndex(t, ":")+1:]
@@ -393,11 +389,8 @@ func (s *c04hostSession) judge(kind string) bool {
 			wantClass = "ok"
 		}
 		e.R.H("host_invocation", kindTok+":"+wantClass)
-		if kindTok != "call" {
-			leaked = false
-		}
 		if guard[i] == "1" {
-			leaked = true
+			e.R.H("host_call_panics_with_operands", "seen") // the class of the fixed finding C04-call-panic-leaks-slot: judged like every other
 		}
 		if s.real[i] == "?" {
 			continue
@@ -416,22 +409,14 @@ func (s *c04hostSession) judge(kind string) bool {
 			e.R.H("host_step", "agrees-with-machine")
 		}
 		if s.real[i] != spec[i] {
-			finding := ""
-			if leaked && s.real[i] == impl[i] {
-				finding = c04hostFinding
-			}
-			if (finding != "" && specKnown) || (finding == "" && specUnknown) {
+			if specReported {
 				continue
 			}
-			if finding != "" {
-				specKnown = true
-			} else {
-				specUnknown = true
-				okAll = false
-			}
+			specReported = true
+			okAll = false
 			e.R.Spec(kind+" history on one VM:\n"+s.text(i)+s.sources(),
 				fmt.Sprintf("after invocation #%d (%s) the real VM has sp/fp %s; the property demands %s: the stack must hold exactly what this invocation leaves, whatever came before (entry-point machine: %s)",
-					i+1, s.descr[i], s.real[i], spec[i], impl[i]), finding)
+					i+1, s.descr[i], s.real[i], spec[i], impl[i]), "")
 		}
 	}
 	return okAll
